@@ -141,6 +141,7 @@ structure Obs where
   executed : List Text     -- scripts that ran (own absolute path), sorted, without duplicates
   changed : List Text      -- paths added, removed or of different kind / content afterwards, sorted
   listed : List Text       -- `List`: the reported names, sorted
+  chmod : List Text        -- regular files of unchanged content whose execute bits (owner / group-other) differ afterwards, sorted
   deriving DecidableEq, Repr, FromJson, ToJson
 
 /-- `os.Stat` succeeds with a directory -/
@@ -178,7 +179,7 @@ def sortTexts : List Text → List Text
 
 /-! ### the entry points -/
 
-def errObs : Obs := { err := true, executed := [], changed := [], listed := [] }
+def errObs : Obs := { err := true, executed := [], changed := [], listed := [], chmod := [] }
 
 inductive GetErr | invalid | notExist | notRegular
   deriving DecidableEq, Repr
@@ -199,7 +200,7 @@ def ranBy (n : Node) : List Text := if n.kind.runnable then [n.path] else []
 def runGet (i : Input) : Obs :=
   match mgrGet i.fs i.root i.name with
   | .error _ => errObs
-  | .ok n => { err := false, executed := ranBy n, changed := [], listed := [] }
+  | .ok n => { err := false, executed := ranBy n, changed := [], listed := [], chmod := [] }
 
 /-- `CLIManager.Uninstall` -/
 def runUninstall (i : Input) : Obs :=
@@ -209,7 +210,7 @@ def runUninstall (i : Input) : Obs :=
     | some n =>
       if n.kind = .symnone then errObs                 -- os.Stat follows the dangling link: ErrNotExist
       else
-      { err := false, executed := [], listed := [],
+      { err := false, executed := [], listed := [], chmod := [],
         changed := sortTexts ((i.fs.filter (fun n => under (dirPath i.root i.name) n.path)).map (·.path)) }
 
 def isSpace (c : Char) : Bool :=
@@ -224,11 +225,11 @@ def runVerify (i : Input) : Obs :=
   if i.name.all isSpace then errObs
   else match mgrGet i.fs i.root i.name with
     | .error _ => errObs
-    | .ok n => { err := !n.kind.runnable || !i.trusted, executed := ranBy n, changed := [], listed := [] }
+    | .ok n => { err := !n.kind.runnable || !i.trusted, executed := ranBy n, changed := [], listed := [], chmod := [] }
 
 /-- `CLIManager.List` over `os.DirFS(root)`: real sub-directories of the root -/
 def runList (i : Input) : Obs :=
-  { err := false, executed := [], changed := [],
+  { err := false, executed := [], changed := [], chmod := [],
     listed := sortTexts ((i.fs.filter (fun n => n.kind = .dir && childOf (rootComps i.root) n.path)).map (fun n => baseName n.path)) }
 
 /-- `parsePluginFromDir` on directory `d`: the executable and the plugin name, or an error -/
@@ -271,7 +272,7 @@ def diffPaths (old new : List Node) : List Text :=
 
 /-- `Install` gives up after having run `ran` -/
 def installFail (ran : List Text) : Obs :=
-  { err := true, executed := sortTexts ran, changed := [], listed := [] }
+  { err := true, executed := sortTexts ran, changed := [], listed := [], chmod := [] }
 
 /-- the tail of `Install`: `Uninstall(name)` (a missing directory is fine), then the copy into a
 directory that is always created afresh - whatever was left in `<root>/<name>`, links included,
@@ -284,15 +285,19 @@ def installFinish (i : Input) (src exe : Node) (name : Text) (ran : List Text) :
     let d := dirPath i.root name
     let old := i.fs.filter (fun n => under d n.path)
     let new := { path := d, kind := .dir, ver := 0, target := [] } :: copied i.fs src exe d
-    { err := false, executed := sortTexts ran, changed := sortTexts (diffPaths old new), listed := [] }
+    { err := false, executed := sortTexts ran, changed := sortTexts (diffPaths old new), listed := [], chmod := [] }
 
 /-- `CLIManager.Install` -/
 def runInstall (i : Input) : Obs :=
   match installSource i.fs i.src with
   | none => errObs
   | some (src, exe, name) =>
-    if Facts.c16InstallValidatesBeforeUse && !validName name then errObs
-    else if exe.kind != .exec then errObs          -- GetMetadata of the new plugin cannot run it
+    -- a lone candidate without execute permission (directory source) gets the owner execute bit:
+    -- after the name is accepted - or, were the call still in `parsePluginFromDir`, before
+    if Facts.c16InstallValidatesBeforeUse && !validName name then
+      { errObs with chmod := if !Facts.c16SetExecutableAfterValidation && exe.kind != .exec then [exe.path] else [] }
+    else if exe.kind != .exec then
+      { errObs with chmod := [exe.path] }          -- ... and GetMetadata of the new plugin cannot run the data file
     else
       match mgrGet i.fs i.root name with
       | .error e =>
@@ -340,8 +345,11 @@ def clauses (i : Input) (o : Obs) : Clauses :=
     -- ... and causes no process execution and no file-system change
     ("non_component_name_has_no_effect",
       isList || (match nm with
-        | some n => singleComponent n || (o.executed.isEmpty && o.changed.isEmpty)
-        | none => o.executed.isEmpty && o.changed.isEmpty)),
+        | some n => singleComponent n || (o.executed.isEmpty && o.changed.isEmpty && o.chmod.isEmpty)
+        | none => o.executed.isEmpty && o.changed.isEmpty && o.chmod.isEmpty)),
+    -- permissions: only an accepted install touches any, and only those of its own source candidate
+    ("mode_changes_only_on_accepted_install_source",
+      o.chmod.isEmpty || (i.op == .install && o.chmod.all (fun p => under i.src p))),
     -- whatever changes, changes inside <root>/<name>
     ("changes_only_inside_root_name",
       match nm with
